@@ -14,10 +14,10 @@ def run(tier):
                    what='the previewed INSERT run as plain SQL stores the same value as the parametrised execution (real SQLite)',
                    bounds='4 ints, 6 strings (quote, double quote, percent, backslash, empty)', functions=F),
         Obligation('set_order', 'harness/c14.py', 'h_set_order', timeout=400,
-                   partitions=[[f, o] for f in range(2) for o in range(5)],
-                   what='change_meta_unique_together / change_meta_index_together emit the same statements for every iteration order of the sets they build (builtin set replaced by a permutation-ordered stand-in)',
-                   bounds='2 functions x 5 old x 5 new together-lists (0-3 entries) x 6 permutations',
-                   functions=['db/common.py change_meta_unique_together, change_meta_index_together, get_fields_for_names, create_unique_index', 'db/state.py DatabaseState.find_index/add_index/remove_index', 'mock_models.py MockModel']),
+                   partitions=[[f, o] for f in range(3) for o in range(5)],
+                   what='change_meta_unique_together / change_meta_index_together / change_meta_indexes emit the same statements for every iteration order of the sets they build (builtin set replaced by a permutation-ordered stand-in)',
+                   bounds='3 functions x 5 old x 5 new together-lists / Meta.indexes lists (0-3 entries) x 6 permutations',
+                   functions=['db/common.py change_meta_unique_together, change_meta_index_together, change_meta_indexes, get_fields_for_names, create_unique_index', 'db/state.py DatabaseState.find_index/add_index/remove_index', 'mock_models.py MockModel']),
     ]
     return run_check('C14', obs, tier,
                      assumptions=['PermSet replaces the name `set` as looked up from django_evolution.db.common; PYTHONHASHSEED itself is process configuration and not a solver variable',
